@@ -187,6 +187,40 @@ Theorem c07_run_independent_of_client : forall c ops bl a k now g1 g2 ops',
 Proof. exact run_independent_of_client. Qed.
 Print Assumptions c07_run_independent_of_client.
 
+(** An answer is not a failure.  pgcat's own out-of-band Parse + Sync (re-preparing a cached named
+    statement on a server connection that lacks it): a server that ANSWERS — ParseComplete, or an
+    ErrorResponse that rejects the statement — is never banned by it ... *)
+Theorem c07_error_response_never_bans : forall c bl a r now, r <> OobConnFail -> step c bl (OobPrepare a r now) = bl.
+Proof. exact oob_answer_never_bans. Qed.
+Print Assumptions c07_error_response_never_bans.
+
+(** ... a replica whose connection fails in that exchange is banned (MessageSendFailed, stamped now);
+    a primary is not. *)
+Theorem c07_oob_conn_failure_bans : forall c bl a now, In a (servers c) -> a_role a = Replica ->
+  find_ban a (step c bl (OobPrepare a OobConnFail now)) = Some (MessageSendFailed, now).
+Proof. exact oob_conn_failure_bans. Qed.
+Print Assumptions c07_oob_conn_failure_bans.
+
+Theorem c07_oob_conn_failure_primary : forall c bl a now, a_role a = Primary -> step c bl (OobPrepare a OobConnFail now) = bl.
+Proof. exact oob_conn_failure_primary. Qed.
+Print Assumptions c07_oob_conn_failure_primary.
+
+(** The general rule, over every operation: an address enters the ban list only through a FAILURE of
+    that address (failing checkout / health check, failure of the checked-out server at statement
+    time or in the out-of-band exchange) or through the admin's BAN of its host — never through an
+    operation in which the server answered. *)
+Theorem c07_new_ban_needs_failure : forall c bl o x, reachable c bl -> wf_op c o ->
+  ~ In x (keys bl) -> In x (keys (step c bl o)) ->
+  match o with
+  | Get _ _ _ outs _ _ => failing (outs x)
+  | ExecFail a _ _ _ => a = x
+  | OobPrepare a r _ => a = x /\ r = OobConnFail
+  | AdminBan_ h _ _ => a_host x = h
+  | AdminUnban _ => False
+  end.
+Proof. exact new_ban_needs_failure. Qed.
+Print Assumptions c07_new_ban_needs_failure.
+
 (** "Detected within the configured timeouts" (partial: a table, see Model.v): with a non-zero
     statement_timeout every server-facing await of a client task outside the recorded class
     [known_unguarded] runs under connect_timeout, healthcheck_timeout or statement_timeout ... *)
@@ -309,6 +343,12 @@ Proof. vm_compute. reflexivity. Qed.
 Example ex_exec_fail :
   run C3 [] [ExecFail R1 KRecv 100 false; ExecFail R1 KStmtTimeout 130 true] = [(R1, (StatementTimeout, 130))].
 Proof. vm_compute. reflexivity. Qed.
+
+(** out-of-band re-prepare: rejected statement => nothing; dead connection => ban *)
+Example ex_oob :
+  run C3 [] [OobPrepare R1 OobServerError 100; OobPrepare R2 OobOk 100] = [] /\
+  run C3 [] [OobPrepare R1 OobServerError 100; OobPrepare R2 OobConnFail 101] = [(R2, (MessageSendFailed, 101))].
+Proof. vm_compute. auto. Qed.
 
 (** UNBAN *)
 Example ex_unban : admin_unban C3 12 [(R1, (FailedCheckout, 1)); (R2, (AdminBan 5, 1))] = [(R1, (FailedCheckout, 1))].
